@@ -4,11 +4,14 @@ EXTRACT = []
 FAMILIES = [
     {"name": "ammdir", "family": "ammdir", "driver": "drv_amm", "n_quick": 1, "n_thorough": 1},
     {"name": "amm", "family": "amm", "driver": "drv_amm", "n_quick": 2500, "n_thorough": 20000, "seeds_thorough": 4},
+    # margin processing (open / close / admin close / interest / liquidation, fund parameters): the margin family of
+    # C13 judges the backing identity of C01 on the keeper's and bank's dumps (chk c01.marginbacking)
+    {"name": "margin", "family": "margin", "group": "margin", "driver": "drv_margin", "n_quick": 60000, "n_thorough": 400000, "seeds_thorough": 2},
 ]
 RULE = ("amm: random L1 histories (60 ops each: create/add sym+asym/remove bps+units/swap 3 routes/bucket/epoch/endblock with LPPD and "
         "depth rewards/decommission/policy changes) on the real clp keeper; ammdir: directed histories of DESIGN 4/C01; "
         "after every op the full state is compared with the model and Spec.C01.solvent is judged on the implementation's dump; "
-        "non-trivial = a distinct message or hook that succeeded")
+        "non-trivial = a distinct message or hook that succeeded; margin: the L1 margin histories of C13 (real margin and clp keepers), where after every message and hook the exact backing identity (clp module balance = sum of pool balance + custody, per token) is judged by Spec.C13.backingOK")
 TRUSTED_BASE = [
     "Lean 4.33.0 kernel; axioms propext, Classical.choice, Quot.sound (audited per theorem on every run)",
     "hand-written Lean model of the clp handlers and hooks (lean/Sif/Model/Clp), tied by state-for-state differential execution against the real keeper",
@@ -18,7 +21,7 @@ ASSUMPTIONS = ["margin disabled for every pool, liquidity protection inactive, r
                "map iterations modelled in sorted order (order-independence is C09)"]
 UNPROVED = [
     "clp.EndBlocker is proved solvent under EndBlockOK: LPPD block rate in [0,1] (enforced by ValidateBasic) and, in distribute mode, every rewarded pool has a provider record; the latter is an invariant of reachable states (the last provider can never withdraw 100%: ErrPoolTooShallow) argued in DESIGN.md, not proved; without it the code records a reward on the pool while the coins are burned",
-    "margin open/close/interest messages are outside this model slice (custody enters as configured pool fields); C13 covers margin bookkeeping",
+    "margin open/close/interest messages are outside the clp model slice of the theorems (custody and liabilities enter as configured pool fields); for them the backing identity is judged on every state of the margin family (chk c01.marginbacking), not proved",
     "exact-equality clause (slack changes only by the decommission remainder) is judged on implementation states but not proved",
 ]
 MANIFEST = {
